@@ -77,6 +77,20 @@ def self_scored_cases(tier):
                              "near_unanimous", "complete"])
 
 
+RESTRICTED = [(n, "absent") for n in ("pickaperm", "enum_pickaperm", "bioco", "enum_bioco", "bioconsert_borda_pick",
+                                       "bioconsert_kwik_cop_borda", "bioconsert", "parcons_bioco_b0",
+                                       "parcons_borda_b0")]
+
+
+def restricted_cases(tier):
+    """algorithms that only accept some scheme families on incomplete data, under positive multiples of exactly
+    those families (a multiple is 'equivalent' for acceptance, but scores scale with it)"""
+    return alg_cases(tier, pairs=RESTRICTED,
+                     schemes=gen.preset_multiples(["unifying", "unifying", "unifying_half", "induced", "induced_half"]),
+                     shapes=["incomplete", "sparse_block", "near_unanimous_incomplete", "cyclic_incomplete",
+                             "block_cyclic", "complete"])
+
+
 ZERO_HEAVY = [0.0, 0.0, 0.0, 1.0, 0.5]
 
 
@@ -114,4 +128,5 @@ def check_zero(case, ctx):
 def subchecks():
     return [HypSub("reported_any", alg_cases, check, quick=2500, thorough=60000),
             HypSub("reported_self_scored", self_scored_cases, check, quick=2500, thorough=60000),
+            HypSub("accepted_families_scaled", restricted_cases, check, 2500, 40000),
             HypSub("zero_objective", zero_objective_cases, check_zero, quick=600, thorough=8000)]
